@@ -1032,16 +1032,19 @@ func Eq(a, b *Term) *Term {
 		a, b = b, a
 	}
 	// concat(0,x) == const  => if const high bits nonzero false
-	if b.K == KConst && a.K == KConcat && isZero(a.Args[0]) {
-		zw := a.Args[0].W
-		hi := Extract(b, b.W-1, b.W-zw)
-		if !isZero(hi) {
-			return False
+	for i := 0; i < 2; i++ {
+		x, y := a, b
+		if i == 1 {
+			x, y = b, a
 		}
-		return Eq(Extract(a, a.W-zw-1, 0), Extract(b, b.W-zw-1, 0))
-	}
-	if a.K == KConst && b.K == KConcat && isZero(b.Args[0]) {
-		return Eq(b, a)
+		if y.K == KConst && x.K == KConcat && isZero(x.Args[0]) {
+			zw := x.Args[0].W
+			hi := Extract(y, y.W-1, y.W-zw)
+			if !isZero(hi) {
+				return False
+			}
+			return Eq(Extract(x, x.W-zw-1, 0), Extract(y, y.W-zw-1, 0))
+		}
 	}
 	// ite(c, k1, k2) == k  with constants
 	for i := 0; i < 2; i++ {
